@@ -6,7 +6,7 @@ From Coq Require Import ZArith List Bool Lia.
 Import ListNotations.
 Require Import RV.Lib.DecCore RV.Lib.DecCoreFacts RV.Model.C25_Round RV.Model.C24_Dec RV.Model.C26_RootPow
   RV.Proof.C25_Round RV.Proof.C24_Dec RV.Proof.C26_RootPow RV.Proof.C26_Powi RV.Proof.C26_PowiMag
-  RV.Proof.C26_PowiUnit RV.Proof.C26_PowiExact.
+  RV.Proof.C26_PowiUnit RV.Proof.C26_PowiExact RV.Proof.C26_Valuation RV.Proof.C26_PowiRep RV.Proof.C26_PowiRep2.
 Open Scope Z_scope.
 
 Definition IsFmt (f : fmt) : Prop := f = DEC \/ f = PDEC.
@@ -108,10 +108,56 @@ Proof.
   - apply (C26_powi_unit_bases f exp Hf). apply Hne. right; reflexivity.
 Qed.
 
-(* PARTIAL: when no division along the square-and-multiply recursion truncates, a returned value is
-   the exact power.  Missing for the literal "exact whenever representable": that a representable
-   exact result forces every intermediate to be exact and in range (a 2-adic / 5-adic valuation
-   argument), so that the function then returns Some — decided by the harness oracle only. *)
+(* THE CLAUSE "integer powers return the exact result whenever it is representable":
+   for every base and every i64 exponent outside the known class, if the exact power q (ExactPow) is
+   representable then checked_powi returns exactly q.  Proof: a representable exact result forces every
+   intermediate of the square-and-multiply recursion to be exact (2-adic / 5-adic valuations of the
+   base) and in range, and, for negative exponents, the reciprocal to be exact. *)
+Lemma IsFmt_sq f : IsFmt f -> one f * one f < 2 ^ (fbits f - 1) /\ scale f < 2 ^ 63 /\ fbits f <= 2 ^ 63.
+Proof. intros [->| ->]; repeat split; vm_compute; try reflexivity; intros; discriminate. Qed.
+
+Theorem C26_powi_min_only_unit_bases : forall f x q, IsFmt f -> InF f x ->
+  ExactPow f x I64_MIN q -> InF f q -> x = one f \/ x = - one f.
+Proof.
+  intros f x q Hf Hx HE Hq. destruct (IsFmt_sq f Hf) as (Hsq & Hs & Hb).
+  destruct HE as [[He _]|[[He _]|(_ & Hx0 & HE)]]; [unfold I64_MIN in He; lia|unfold I64_MIN in He; lia|].
+  apply (powi_huge_representable_only_unit f (IsFmt_ok f Hf) Hsq (2 ^ 63) x q); assumption.
+Qed.
+
+Theorem C26_powi_exact_when_representable : forall f x exp q, IsFmt f -> InF f x ->
+  I64_MIN <= exp <= I64_MAX -> ~ KnownPowi f x exp ->
+  ExactPow f x exp q -> InF f q -> dec_powi f x exp = Ok q.
+Proof.
+  intros f x exp q Hf Hx He Hk HE Hq. destruct (IsFmt_sq f Hf) as (Hsq & Hs & Hb).
+  pose proof (IsFmt_ok f Hf) as Hok.
+  destruct (Z.eq_dec exp I64_MIN) as [Emin|Emin].
+  { exfalso. apply Hk. split; [exact Emin|]. subst exp. apply (C26_powi_min_only_unit_bases f x q); assumption. }
+  destruct HE as [[He1 HE]|[[He0 HE]|(Hneg & Hx0 & HE)]].
+  - apply (powi_exact_pos f Hok); try assumption. lia.
+  - subst exp q. rewrite (powi_nonneg_step f Hok) by (try assumption; unfold I64_MAX; lia).
+    change 66%nat with (S 65). rewrite ppow_go_S. reflexivity.
+  - apply (powi_exact_neg f Hok Hsq); try assumption. lia.
+Qed.
+
+(* the whole power clause of the property outside the known class {exp = i64::MIN, base = +-1}:
+   exact whenever representable; otherwise a returned value does not exceed the exact power in
+   magnitude; never a panic *)
+Theorem C26_powi_full_except_known : forall f x exp, IsFmt f -> InF f x -> I64_MIN <= exp <= I64_MAX ->
+  ~ KnownPowi f x exp ->
+  (forall q, ExactPow f x exp q -> InF f q -> dec_powi f x exp = Ok q) /\
+  (forall r, dec_powi f x exp = Ok r ->
+     (1 <= exp -> Z.abs r * one f ^ (exp - 1) <= Z.abs x ^ exp) /\ (exp = 0 -> r = one f) /\
+     (exp < 0 -> Z.abs r * Z.abs x ^ (- exp) <= one f ^ (- exp + 1))) /\
+  (dec_powi f x exp = Err ENone \/ exists r, dec_powi f x exp = Ok r /\ InF f r).
+Proof.
+  intros f x exp Hf Hx He Hk. split; [|split].
+  - intros q HE Hq. apply C26_powi_exact_when_representable; assumption.
+  - intros r Hr. apply (C26_powi_magnitude f x exp r); assumption.
+  - apply C26_powi_never_panics; assumption.
+Qed.
+
+(* when no division along the square-and-multiply recursion truncates, a returned value is exact
+   (the converse direction used above) *)
 Theorem C26_powi_exact_if_no_truncation_partial : forall f x exp r, IsFmt f -> InF f x ->
   1 <= exp <= I64_MAX -> dec_powi f x exp = Ok r -> steps_exact f 66 x exp ->
   r * one f ^ (exp - 1) = x ^ exp.
@@ -136,3 +182,6 @@ Print Assumptions C26_powi_never_panics.
 Print Assumptions C26_powi_magnitude.
 Print Assumptions C26_powi_except_known.
 Print Assumptions C26_powi_exact_if_no_truncation_partial.
+Print Assumptions C26_powi_exact_when_representable.
+Print Assumptions C26_powi_min_only_unit_bases.
+Print Assumptions C26_powi_full_except_known.
